@@ -14,7 +14,7 @@ Require Import String.
 Require Import Arith Lia List Bool ZArith QArith Qcanon.
 From TK Require Import Mat_Sums Mat_Core Mat_Qc Mat_EigSelect EigSelect Mat_EigSelect_Tie
                        Proj_Model Proj_Spec Proj_Proof
-                       Pca_Model Pca_Spec Pca_Proof Pca_Proof_Qc Spectral_KyFan Pca_Proof_Opt Pca_Proof_Select.
+                       Pca_Model Pca_Spec Pca_Proof Pca_Proof_Qc Spectral_KyFan Pca_Proof_Opt Spectral_Randomized Pca_Proof_Select Pca_Proof_Sign.
 Import ListNotations.
 Local Open Scope nat_scope.
 
@@ -237,6 +237,80 @@ Proof.
   split; [apply Qc_of_nat_neq0; lia|]. split; [lia|]. split; [exact ex6_full|exact ex6_ascending].
 Qed.
 
+(* 9c. the RANDOMIZED path on exact-rank data: the Gram-Schmidt loop of
+       eigendecomposition_impl_randomized leaves orthonormal columns (norms = sqrt oracle values),
+       and if the range of the matrix was captured (Y Y^T A = A: rank A <= d and a generic Gaussian
+       O) then from B = Y^T A Y (least squares with orthonormal Y) and ANY eigen answer for the small
+       B, the returned P = Y W meets the same contract as the dense path *)
+Theorem C06_gram_schmidt_orthonormal :
+  forall (F : Type) (Fo : FieldOps F) (Ff : IsField F) (n : nat) (Y : mat F) (k : nat) (s : nat -> F),
+    (forall i, i < k ->
+       s i <> 0%F /\
+       (s i * s i)%F = (let Yi := gram_schmidt n Y i s in
+                        let col := gs_subtract n Yi i i (fun t => Yi t i) in dot n col col)) ->
+    cols_orthonormal_upto n k (gram_schmidt n Y k s).
+Proof. exact @gram_schmidt_orthonormal. Qed.
+Print Assumptions C06_gram_schmidt_orthonormal.
+
+Theorem C06_randomized_contract :
+  forall (F : Type) (Fo : FieldOps F) (Ff : IsField F) (n k : nat) (A Y B W : mat F) (lam : vec F),
+    orthonormal_cols n k Y ->
+    meq n n (mmul k Y (mmul n (mtrans Y) A)) A ->
+    meq k k B (mmul n (mtrans Y) (mmul n A Y)) ->
+    eig_pairs k k B W lam ->
+    eig_pairs n k A (mmul k Y W) lam.
+Proof. exact @randomized_contract. Qed.
+Print Assumptions C06_randomized_contract.
+
+Theorem C06_pca_randomized_path :
+  forall (F : Type) (Fo : FieldOps F) (Ff : IsField F) (N D d : nat) (X O B W : mat F)
+         (lam : vec F) (s : nat -> F),
+    of_nat N <> 0%F ->
+    let A := cov_spec N X in
+    let Y := gram_schmidt D (mmul D A O) d s in
+    (forall i, i < d ->
+       s i <> 0%F /\
+       (s i * s i)%F = (let Yi := gram_schmidt D (mmul D A O) i s in
+                        let col := gs_subtract D Yi i i (fun t => Yi t i) in dot D col col)) ->
+    meq D D (mmul d Y (mmul D (mtrans Y) A)) A ->
+    meq d d B (mmul D (mtrans Y) (mmul D A Y)) ->
+    eig_pairs d d B W lam ->
+    let P := mmul d Y W in
+    eig_contract D d A P lam /\ uncorrelated N d (pca_embedding N D X P) lam.
+Proof. exact @pca_randomized_path. Qed.
+Print Assumptions C06_pca_randomized_path.
+
+(* rank-one data: (4,5) and (-2,-3), covariance (3,4)(3,4)^T, O = e_1, norm oracle 15 *)
+Definition ex6r_X : mat Qc := mof [[qz 4; qz 5]; [qz (-2); qz (-3)]].
+Definition ex6r_O : mat Qc := mof [[qz 1]; [qz 0]].
+Definition ex6r_s : nat -> Qc := fun _ => qz 15.
+Definition ex6r_B : mat Qc := mof [[qz 25]].
+Definition ex6r_W : mat Qc := mof [[qz 1]].
+Definition ex6r_lam : vec Qc := vof [qz 25].
+
+Example C06_pca_randomized_nonvacuous :
+  @of_nat Qc _ 2 <> 0%F /\
+  let A := cov_spec 2 ex6r_X in
+  let Y := gram_schmidt 2 (mmul 2 A ex6r_O) 1 ex6r_s in
+  (forall i, i < 1 ->
+     ex6r_s i <> 0%F /\
+     (ex6r_s i * ex6r_s i)%F = (let Yi := gram_schmidt 2 (mmul 2 A ex6r_O) i ex6r_s in
+                                let col := gs_subtract 2 Yi i i (fun t => Yi t i) in dot 2 col col)) /\
+  meq 2 2 (mmul 1 Y (mmul 2 (mtrans Y) A)) A /\
+  meq 1 1 ex6r_B (mmul 2 (mtrans Y) (mmul 2 A Y)) /\
+  eig_pairs 1 1 ex6r_B ex6r_W ex6r_lam /\
+  mtab 2 1 (mmul 1 Y ex6r_W) = [[qfrac 3 5]; [qfrac 4 5]].
+Proof.
+  split; [apply Qc_of_nat_neq0; lia|]. cbv zeta. split; [|split; [|split; [|split]]].
+  - intros i Hi. assert (i = 0) by lia. subst i. split.
+    + intros H. apply (f_equal this) in H. vm_compute in H. discriminate.
+    + apply Qc_is_canon. vm_compute. reflexivity.
+  - apply meq_by_compute. vm_compute. reflexivity.
+  - apply meq_by_compute. vm_compute. reflexivity.
+  - split; apply meq_by_compute; vm_compute; reflexivity.
+  - apply mlist_eqb_ok. vm_compute. reflexivity.
+Qed.
+
 (* Ky Fan itself, both directions and attainment, every n, d, every ordered field *)
 Theorem C06_ky_fan :
   forall (F : Type) (Fo : FieldOps F) (Ff : IsField F) (Fle : OrderedField F)
@@ -276,6 +350,64 @@ Theorem C06_pca_kpca_mds_gram_partial :
        sumn N (fun k => (Y k a * Y k b)%F) = if Nat.eqb a b then (of_nat N * lam a)%F else 0%F).
 Proof. exact @pca_gram_factor. Qed.
 Print Assumptions C06_pca_kpca_mds_gram_partial.
+
+(* 10b. ... and that characterisation fixes each column up to sign when its eigenvalue is simple
+        and non-zero: column c of PCA's embedding equals +- column c of ANY embedding whose column is
+        a Gram-factor column (G z = mu z, <z,z> = mu) for mu = N lam_c — which is what Properties_C05
+        proves of Kernel PCA and MDS.  What stays cited: that the d largest eigenvalues of
+        G = X_c X_c^T are N times the d largest eigenvalues of the covariance (same non-zero spectra
+        WITH the same ordering), so that all three methods select the same mu's. *)
+Theorem C06_pca_column_unique_up_to_sign :
+  forall (F : Type) (Fo : FieldOps F) (Ff : IsField F)
+         (eq_dec : forall a b : F, {a = b} + {a <> b})
+         (N D d : nat) (X P : mat F) (lam : vec F) (c : nat) (u z : vec F),
+    of_nat N <> 0%F -> c < d ->
+    eig_contract D d (cov_spec N X) P lam ->
+    let mu := (of_nat N * lam c)%F in
+    mu <> 0%F ->
+    simple_eigenvalue N (centred_gram N D X) mu u ->
+    gram_factor_col N (centred_gram N D X) mu z ->
+    let y := fun k => pca_embedding N D X P k c in
+    veq N z y \/ veq N z (vscale (- (1))%F y).
+Proof. exact @pca_column_unique_up_to_sign. Qed.
+Print Assumptions C06_pca_column_unique_up_to_sign.
+
+Definition ex6s_X : mat Qc := mof [[qz 1]; [qz (-1)]].
+Definition ex6s_P : mat Qc := mof [[qz 1]].
+Definition ex6s_lam : vec Qc := vof [qz 1].
+Definition ex6s_u : vec Qc := vof [qz 1; qz (-1)].
+
+Example C06_sign_nonvacuous :
+  2 <> 0 /\ 0 < 1 /\
+  eig_contract 1 1 (cov_spec 2 ex6s_X) ex6s_P ex6s_lam /\
+  (of_nat 2 * ex6s_lam O)%F <> 0%F /\
+  simple_eigenvalue 2 (centred_gram 2 1 ex6s_X) (of_nat 2 * ex6s_lam O)%F ex6s_u /\
+  gram_factor_col 2 (centred_gram 2 1 ex6s_X) (of_nat 2 * ex6s_lam O)%F ex6s_u.
+Proof.
+  split; [lia|]. split; [lia|]. split.
+  { split; apply meq_by_compute; vm_compute; reflexivity. }
+  split.
+  { intros H. apply (f_equal this) in H. vm_compute in H. discriminate. }
+  assert (G00 : centred_gram 2 1 ex6s_X 0 0 = qz 1) by (apply Qc_is_canon; vm_compute; reflexivity).
+  assert (G01 : centred_gram 2 1 ex6s_X 0 1 = qz (-1)) by (apply Qc_is_canon; vm_compute; reflexivity).
+  assert (MU : (of_nat 2 * ex6s_lam O)%F = qz 2) by (apply Qc_is_canon; vm_compute; reflexivity).
+  split.
+  - intros v Hv. exists (v 0%nat). intros i Hi.
+    specialize (Hv 0%nat ltac:(lia)). unfold mv in Hv. cbn [sumn] in Hv. rewrite G00, G01, MU in Hv.
+    cbn [fadd fmul fzero QcOps] in Hv.
+    set (a := v 0%nat) in *. set (b := v 1%nat) in *.
+    assert (E : b = (- a)%Qc).
+    { transitivity ((- a) - ((Q2Qc 0 + qz 1 * a + qz (-1) * b) - qz 2 * a))%Qc.
+      - change (qz 1) with 1%Qc. change (qz (-1)) with (-(1))%Qc. change (qz 2) with (1+1)%Qc.
+        change (Q2Qc 0) with 0%Qc. ring.
+      - rewrite Hv. change (qz 1) with 1%Qc. change (qz 2) with (1+1)%Qc. ring. }
+    destruct i as [|[|i]]; try lia; unfold vscale, ex6s_u, vof; cbn [nth]; cbn [fmul QcOps].
+    + fold a. change (qz 1) with 1%Qc. ring.
+    + fold b. rewrite E. change (qz (-1)) with (-(1))%Qc. ring.
+  - split.
+    + intros i Hi. destruct i as [|[|i]]; try lia; apply Qc_is_canon; vm_compute; reflexivity.
+    + apply Qc_is_canon. vm_compute. reflexivity.
+Qed.
 
 (* 11. the decision procedures the check runs on the implementation's outputs are sound in
        exact mode, and the model's own covariance passes them *)
